@@ -160,7 +160,8 @@ def run_impl(case):
                 if len(a.allocations) > 100:
                     raise AssertionError("too large")
                 b = a.refine(float(t))
-                ch.append(len(b.allocations) != len(a.allocations) or alloc_obs(b)["cells"] != obs["init"]["cells"])
+                ch.append(len(b.allocations) != len(a.allocations) or
+                          not same_cells(alloc_obs(b)["cells"], obs["init"]["cells"]))
             except (AssertionError, ZeroDivisionError) as e:
                 ch.append(type(e).__name__)
         obs["refine_changes"] = ch
@@ -224,7 +225,7 @@ def to_coq(case, obs):
     C0 = gcells(case["cells"])
     if obs["init"] is None:
         return f"match mk_allocation {aeps} {C0} with None => true | Some _ => false end"
-    parts = [f"opt_eqb cells_eqb (mk_allocation {aeps} {C0}) (Some {gcells(obs['init']['cells'])})"]
+    parts = [f"opt_eqb cells_same (mk_allocation {aeps} {C0}) (Some {gcells(obs['init']['cells'])})"]
 
     def areas(state, cells_term):
         out = []
@@ -246,11 +247,34 @@ def to_coq(case, obs):
             parts.append(f"match {call} with None => true | Some _ => false end")
         else:
             A = gcells(st["after"]["cells"])
-            parts.append(f"opt_eqb cells_eqb ({call}) (Some {A})")
+            parts.append(f"opt_eqb cells_same ({call}) (Some {gcells(sorted_cells(st['after']['cells']))})")
             parts += areas(st["after"], A)
             for t, b in zip(case["ths"], st["mbr_after"]):
                 parts.append(f"Bool.eqb (must_be_refined {gq(t)} {A}) {gbool(b)}")
     return " && ".join(f"({p})" for p in parts)
+
+
+# ---------------- comparison up to order ----------------
+# C02 / C12 constrain the SET of cells of an allocation (and the occupancy map as a mapping), not the position of a
+# cell in Allocation.allocations nor the order of the keys: model and implementation are compared as sets, and the
+# oracles find the pieces of a cell by geometry.
+def canon_cell(c):
+    r = c["rect"]
+    return (core.frac(r["cx"]), core.frac(r["cy"]), core.frac(r["w"]), core.frac(r["h"]), bool(r["fixed"]), bool(r["hard"]),
+            r["region"], r.get("loc", "NOPOLY"), c["depth"], tuple(sorted((m, core.frac(q)) for m, q in c["alloc"])))
+
+
+def canon_cells(cells):
+    return sorted(canon_cell(c) for c in cells)
+
+
+def same_cells(a, b):
+    return canon_cells(a) == canon_cells(b)
+
+
+def sorted_cells(cells):
+    """by centre (the order the Coq comparator sorts in: printing sorted makes its insertion sort linear)"""
+    return sorted(cells, key=lambda c: (core.frac(c["rect"]["cx"]), core.frac(c["rect"]["cy"])))
 
 
 # ---------------- helpers for the oracles ----------------
@@ -415,8 +439,9 @@ def run_hist_impl(case):
             elif h[0] == "setfixed":
                 i = h[2] % len(a.allocations)
                 st["i"] = i
+                st["at"] = [a.allocations[i].rect.center.x, a.allocations[i].rect.center.y]
                 a.allocations[i].rect.fixed = bool(h[3])
-                st["flags"] = [[x.rect.fixed for x in y.allocations] for y in A]
+                st["fixed"] = [[[x.rect.center.x, x.rect.center.y] for x in y.allocations if x.rect.fixed] for y in A]
             elif h[0] == "mbr":
                 st["val"] = bool(a.must_be_refined(float(h[2])))
             elif h[0] == "maxdepth":
@@ -430,23 +455,23 @@ def run_hist_impl(case):
             # what the step did to the allocations that existed before it (flags aside for a setfixed step)
             now = [cells_obs(x) for x in A[:len(snap)]]
             if h[0] == "setfixed":
-                strip = lambda cs: [[dict(c, rect=dict(c["rect"], fixed=None)) for c in x] for x in cs]
+                strip = lambda cs: [canon_cells([dict(c, rect=dict(c["rect"], fixed=False)) for c in x]) for x in cs]
                 st["others_unchanged"] = strip(now) == strip(snap)
             else:
-                st["others_unchanged"] = now == snap
+                st["others_unchanged"] = [canon_cells(x) for x in now] == [canon_cells(x) for x in snap]
             obs["steps"].append(st)
         return obs
     finally:
         Rectangle.undefine_epsilon()
 
 
-def ghop(h):
+def ghop(h, st):
     if h[0] == "apply":
         return f"(HApply {gnat(h[1])} {gop(h[2])})"
     if h[0] == "copy":
         return f"(HCopy {gnat(h[1])})"
     if h[0] == "setfixed":
-        return f"(HSetFixed {gnat(h[1])} {gnat(h[2])} {gbool(h[3])})"
+        return f"(HSetFixed {gnat(h[1])} {gq(st['at'][0])} {gq(st['at'][1])} {gbool(h[3])})"
     if h[0] == "mbr":
         return f"(HMbr {gnat(h[1])} {gq(h[2])})"
     name = {"maxdepth": "HMaxDepth", "numrect": "HNumRect", "areas": "HAreas"}[h[0]]
@@ -455,9 +480,9 @@ def ghop(h):
 
 def gobs(h, st):
     if h[0] in ("apply", "copy"):
-        return f"(ONew {gopt(None if st['new'] is None else gcells(st['new']))})"
+        return f"(ONew {gopt(None if st['new'] is None else gcells(sorted_cells(st['new'])))})"
     if h[0] == "setfixed":
-        return f"(OFlags {glist([glist([gbool(b) for b in fl]) for fl in st['flags']])})"
+        return "(OFixed " + glist([glist([f"({gq(x)}, {gq(y)})" for x, y in fl]) for fl in st["fixed"]]) + ")"
     if h[0] == "mbr":
         return f"(OBool {gbool(st['val'])})"
     if h[0] in ("maxdepth", "numrect"):
@@ -473,16 +498,16 @@ def hist_to_coq(case, obs):
     scale = gq(max([abs(core.frac(c["rect"]["cx"])) + abs(core.frac(c["rect"]["cy"])) +
                     core.frac(c["rect"]["w"]) + core.frac(c["rect"]["h"]) for c in obs["init"]["cells"]] + [1]))
     hops = case["hops"][:len(obs["steps"])]
-    ops = glist([ghop(h) for h in hops])
+    ops = glist([ghop(h, st) for h, st in zip(hops, obs["steps"])])
     exp = glist([gobs(h, st) for h, st in zip(hops, obs["steps"])])
     extra = []
     for h, st in zip(hops, obs["steps"]):
         if h[0] == "apply" and st.get("new") is not None:
             # the new object's own area()/center() (computed by its constructor) against the model on its cells
             A = gcells(st["new"])
-            extra.append(f"areas_eqb {scale} (areas_of {A}) " +
+            extra.append(f"areas_same {scale} {A} " +
                          glist([f"({gstr(m)}, {gq(a)}, ({gq(c[0])}, {gq(c[1])}))" for m, a, c in st["new_areas"]]))
-    parts = [f"opt_eqb cells_eqb (mk_allocation {aeps} {C0}) (Some {gcells(obs['init']['cells'])})",
+    parts = [f"opt_eqb cells_same (mk_allocation {aeps} {C0}) (Some {gcells(obs['init']['cells'])})",
              f"match hist {eps} {aeps} {q} {C0} {ops} with Some l => list_eqb (hobs_eqb {scale}) l {exp} | None => false end"]
     return " && ".join(f"({p})" for p in parts + extra)
 
